@@ -119,6 +119,57 @@ def audit(pid, modules):
     return {"theorems": [n for _, n in names], "axioms": sorted({a for v in res.values() for a in v})}, None
 
 
+GENREF = os.path.join(ROOT, "lean", "GenRef")
+
+
+def import_closure(modules):
+    """SlipVerif modules reachable from the given ones through `import SlipVerif.…` lines."""
+    seen, todo = set(), list(modules)
+    while todo:
+        m = todo.pop()
+        if m in seen:
+            continue
+        seen.add(m)
+        path = os.path.join(LEAN, m.replace(".", "/") + ".lean")
+        if not os.path.exists(path):
+            continue
+        for line in open(path):
+            mm = re.match(r"\s*import\s+(SlipVerif\.\S+)", line)
+            if mm:
+                todo.append(mm.group(1))
+    return seen
+
+
+def gen_deps(conf):
+    """names of the Gen modules (file stems) the property's theorem and obligation modules depend on."""
+    clo = import_closure(conf.get("theorem_modules", []) + conf.get("gen_modules", []))
+    return sorted(m.split(".")[-1] for m in clo if m.startswith("SlipVerif.Gen."))
+
+
+def gen_differs(name):
+    """True when the regenerated Gen/<name>.lean differs from the committed reference copy
+    (lean/GenRef/<name>.lean = what the extractor produced for the tree the proofs were written for)."""
+    ref = os.path.join(GENREF, name + ".lean")
+    cur = os.path.join(LEAN, "SlipVerif", "Gen", name + ".lean")
+    if not os.path.exists(ref):
+        return False
+    try:
+        return open(ref).read() != open(cur).read()
+    except OSError:
+        return True
+
+
+def restore_ref(names):
+    ok = True
+    for n in names:
+        ref = os.path.join(GENREF, n + ".lean")
+        if os.path.exists(ref):
+            shutil.copyfile(ref, os.path.join(LEAN, "SlipVerif", "Gen", n + ".lean"))
+        else:
+            ok = False
+    return ok
+
+
 def main():
     ap = argparse.ArgumentParser()
     ap.add_argument("id")
@@ -146,16 +197,46 @@ def main():
         # 1. extract: regenerate Gen/*.lean from the repository's current sources
         rc, out = run(["go", "run", ".", "-repo", REPO, "-out", os.path.join(LEAN, "SlipVerif", "Gen")],
                       cwd=os.path.join(ROOT, "extract"), env=GOENV)
-        if rc != 0:
+        reference_tables = []  # Gen modules replaced by their committed reference copy for this run
+        if rc == 3:
+            # a generator no longer understands the source it reads (renamed table, changed literal
+            # shape …): the tie of every property that depends on that module is broken. The other
+            # modules were regenerated. Continue with the reference copy of the failed module so that
+            # the model still runs and the harness can search for a failing input.
+            failed = re.findall(r"^EXTRACT-FAILED (\S+): (.*)$", out, re.M)
+            if not failed or not restore_ref([n for n, _ in failed]):
+                log(out); log("extractor failed"); return 2
+            reference_tables += [n for n, _ in failed]
+            mine = [(n, e) for n, e in failed if n in gen_deps(conf)]
+            if mine:
+                gen_broken = ("extract:" + mine[0][0], "the extractor can no longer regenerate Gen/%s.lean from the source: %s" % mine[0])
+        elif rc != 0:
             log(out); log("extractor failed"); return 2
         run([sys.executable, os.path.join(ROOT, "tools", "gen_main.py"), LEAN])
-        # 2. prove: model + driver + property theorems (my own proofs: failure = machinery error)
+        # 2. prove: model + driver + property theorems. With the regenerated definitions equal to the
+        # reference ones a failure can only be my own (machinery error). When a regenerated module the
+        # property depends on differs from its reference copy, the theorems were re-checked against what
+        # the code says now and no longer hold: a broken proof obligation (K-gen), handled like a broken
+        # Gen<ID> obligation — the run continues on the reference tables to search for a failing input.
         targets = ["slipmodel"] + conf.get("theorem_modules", [])
         rc, out = run(["lake", "build"] + targets, cwd=LEAN)
         if rc != 0:
-            log(out); log("lake build failed for " + " ".join(targets)); return 2
+            changed = [n for n in gen_deps(conf) if gen_differs(n)]
+            allchanged = [os.path.basename(f)[:-5] for f in glob.glob(os.path.join(GENREF, "*.lean")) if gen_differs(os.path.basename(f)[:-5])]
+            if not allchanged:
+                log(out); log("lake build failed for " + " ".join(targets)); return 2
+            first_err = out[-4000:]
+            restore_ref(allchanged)
+            reference_tables += allchanged
+            rc2, out2 = run(["lake", "build"] + targets, cwd=LEAN)
+            if rc2 != 0:
+                log(out2); log("lake build failed for " + " ".join(targets) + " (also on the reference tables)"); return 2
+            if changed and not gen_broken:
+                gen_broken = ("theorems-over:" + ",".join(changed), first_err)
+            elif not changed:
+                log("note: regenerated modules " + ",".join(allchanged) + " (not used by this property) broke the driver build; running on their reference copies")
         # 2b. generated obligations (facts about the code as extracted now): failure = K-gen broken
-        for mod in conf.get("gen_modules", []):
+        for mod in ([] if gen_broken else conf.get("gen_modules", [])):
             rc, out = run(["lake", "build", mod], cwd=LEAN)
             if rc != 0:
                 gen_broken = (mod, out[-4000:])
@@ -246,6 +327,8 @@ def main():
         "the extractor /verif/extract (go/ast) for regenerated tables",
     ]
     cov["gen_obligation_broken"] = gen_broken[0] if gen_broken else None
+    cov["gen_modules_used"] = gen_deps(conf)
+    cov["gen_modules_on_reference_copy"] = sorted(set(reference_tables))
     ev["level"] = conf.get("level", "proof")
     ev["assumptions"] = conf.get("assumptions", [])
     ev["wall_s"] = round(time.time() - t0, 2)
